@@ -382,13 +382,33 @@ class Check(common.Check):
         'next_err_obs', 'streams_independent', 'blueprint_immutable', 'stopped_stays_stopped',
         'good_of_wf')]
     N_QUICK = 1500
-    N_THOROUGH = 30000
     DEN_K = 12
     DEN_N = 40
-    ASSUMPTIONS = []
+    N_THOROUGH = 60000
+    ASSUMPTIONS = [
+        'values are Python ints, bools, exact binary64 floats (dyadic, modelled as Rat), lists and tuples; '
+        'terms whose reference evaluation leaves the exactly representable range are not generated',
+        'operator patterns: numbers (bool as int), list+list, tuple+tuple, sequence*int; comparisons of two '
+        'sequences, negative modulus and wrap bounds hi<lo are outside the modelled domain (not generated)',
+        'ListPattern constructors reject empty lists (Pat.WF); patterns are observed through next() only, '
+        'the inval argument is passed but value patterns do not depend on it',
+        'silent divergence (a next() that never returns) is not generated: the reference evaluation has a '
+        'work budget and such terms are discarded; in the theorem it is the empty continuation on both sides',
+        'Mersenne Twister not modelled: a seeded random pattern is replaced by the deterministic pattern '
+        'its random.Random(seed) draws select (Pswitch / Pseq over the drawn indices)',
+        'after an exception a stream is not observed any further',
+    ]
 
     def rule(self):
-        return ''
+        return ('random pattern terms, depth 1-7 (nested patterns as list items and as arguments n / which / '
+                'step / length / lo / hi), over all 27 classes of the AST + Pseed(Prand|Pxrand|Pshuffle); list '
+                'sizes 1-5, repeats in {0,1,2,3,inf}, Python-style offsets (negative, beyond the length), ints '
+                'and dyadic floats, 3% operands of the wrong kind (TypeError paths); 1-3 streams of the same '
+                'pattern object driven in a random interleaving by 4-64 next() calls (with and without an '
+                'inval), continuing after StopStream. Every case is compared three ways: real streams vs the '
+                'Lean small-step machine (driver), real streams vs an independent lazy Python evaluation of '
+                'the documented meaning (oracle), Lean denotation den(k=12) vs the oracle. Non-trivial: term '
+                'depth >= 2 and >= 3 values observed; distinct by term + op list')
 
     def gen_case(self, rng):
         g = Gen(rng)
